@@ -97,10 +97,9 @@ def reference_calls(prop, b, idx, salt, profile_kw):
 def reference_calls_log(prop, b, idx, salt, profile_kw, classes=("stat", "lstat", "read")):
     """calls of qmail-send taken from the shim's log file (classes that are logged but not gated)"""
     from . import shim
-    h, res = run_one(prop, b, idx, salt, profile_kw, [])
+    h, res = run_one(prop, b, idx, salt, dict(profile_kw, keep_log=True), [])
     calls = []
-    gen1_end = None
-    for e in shim.read_log(h.sim.logfile):
+    for e in getattr(h.sim, "final_log", []):
         if e.get("g") == "qmail-send" and e.get("r") == "send" and "n2" in e and e.get("c") in classes:
             if e["c"] == "read" and not (e.get("path") or "").startswith("queue/"):
                 continue
@@ -144,9 +143,13 @@ def sweep_worker(prop, bdir, variant, idx, salt, profile_kw, oracle_names, plans
         fired = False
         for attempt in (0, 1):
             try:
-                h, _ = run_one(prop, b, idx, salt, profile_kw, oracle_names, plan=plan, res=res)
+                pk = dict(profile_kw, keep_log=True) if profile_kw.get("trace_extra") else profile_kw
+                h, _ = run_one(prop, b, idx, salt, pk, oracle_names, plan=plan, res=res)
                 for e in h.sim.events:
                     if e["kind"] == "sys" and (e.get("ph") == "killed" or e.get("inj") in ("fail", "short")):
+                        fired = True
+                for e in getattr(h.sim, "final_log", []):
+                    if e.get("inj") in ("fail", "short", "kill"):
                         fired = True
                 res.counters.inc("crashes", h.crashes)
                 res.counters.inc("gated_steps", h.sim.steps)
